@@ -1,5 +1,6 @@
 //! C17 - serialisation round-trips values exactly.
 use crate::amt::{self, A};
+use super::history::{call, Call};
 use crate::core::*;
 use quantities::Quantity;
 use serde::de::DeserializeOwned;
@@ -9,6 +10,40 @@ use std::collections::HashMap;
 
 pub fn collect(blocks: &mut Vec<Block>, setup: &mut Report) {
     crate::for_each_serde_type!(add_type, blocks, setup);
+    super::history::collect_for("C17", blocks, setup);
+}
+
+/// the deserialisation calls of the shared history alphabet (props/history.rs)
+pub fn history_calls(calls: &mut Vec<Call>) {
+    crate::for_each_serde_type!(add_calls, calls);
+}
+
+fn add_calls<Q>(key: &str, calls: &mut Vec<Call>)
+where
+    Q: Quantity + QB + Serialize + DeserializeOwned,
+    Q::UnitType: UB + Serialize + DeserializeOwned,
+{
+    let Ok(b) = bind::<Q>(key) else { return };
+    for i in 0..b.n() {
+        let name = b.vname(i).to_string();
+        let text = format!("\"{name}\"");
+        let t2 = text.clone();
+        // the unit from JSON text
+        calls.push(call(&["C17"], format!("from_str::<{key} unit>({text})"), move || match serde_json::from_str::<Q::UnitType>(&t2) {
+            Ok(u) => format!("{:?}", u),
+            Err(e) => format!("error: {e}"),
+        }));
+        // a value in that unit through the data-model tree (serialised by the implementation itself)
+        let q = Q::new(amt::parse("2.5"), b.units[i]);
+        if let Ok(Ok(v)) = guard(|| serde_json::to_value(q)) {
+            let v2 = v.clone();
+            calls.push(call(&["C17"], format!("from_value::<{key}>({v})"), move || match serde_json::from_value::<Q>(v2.clone()) {
+                Ok(r) => format!("{} {:?}", amt::show(r.amount()), r.unit()),
+                Err(e) => format!("error: {e}"),
+            }));
+            calls.push(call(&["C17"], format!("to_string(2.5 {key}::{name})"), move || format!("{:?}", serde_json::to_string(&q).map_err(|e| e.to_string()))));
+        }
+    }
 }
 
 fn add_type<Q>(key: &str, blocks: &mut Vec<Block>, setup: &mut Report)
